@@ -18,6 +18,8 @@ pub enum AnyTarget {
     Quartic,
     HalfLine { rate: f64 },
     LogBox,
+    /// `Σ ln(sqrt(x_i)) - rate·x_i` on x > 0: value *and* autodiff gradient are NaN outside the support
+    SqrtGamma { rate: f64 },
 }
 
 pub trait Sc: Float + Element + ElementConversion + std::fmt::Debug + num_traits::FloatConst + Send + Sync + 'static {
@@ -71,6 +73,7 @@ impl AnyTarget {
             AnyTarget::Quartic => "quartic".into(),
             AnyTarget::HalfLine { rate } => format!("halfline {}", h(*rate)),
             AnyTarget::LogBox => "logbox".into(),
+            AnyTarget::SqrtGamma { rate } => format!("sqrtgamma {}", h(*rate)),
         }
     }
     pub fn name(&self) -> &'static str {
@@ -83,6 +86,7 @@ impl AnyTarget {
             AnyTarget::Quartic => "quartic",
             AnyTarget::HalfLine { .. } => "halfline",
             AnyTarget::LogBox => "logbox",
+            AnyTarget::SqrtGamma { .. } => "sqrtgamma",
         }
     }
     /// f64 reference log-density (the harness's own copy of the target, used to judge visited states)
@@ -111,6 +115,7 @@ impl AnyTarget {
                 }
             }
             AnyTarget::LogBox => x.iter().map(|t| t.ln() + (1.0 - t).ln()).sum::<f64>(),
+            AnyTarget::SqrtGamma { rate } => x.iter().map(|t| t.sqrt().ln() - rate * t).sum::<f64>(),
         }
     }
     pub fn dim_fixed(&self) -> Option<usize> {
@@ -166,6 +171,7 @@ impl<T: Sc, B: AutodiffBackend> BatchedGradientTarget<T, B> for AnyTarget {
                 let one_minus = positions.clone().neg().add_scalar(T::from64(1.0));
                 (positions.log() + one_minus.log()).sum_dim(1).squeeze::<1>(1)
             }
+            AnyTarget::SqrtGamma { rate } => (positions.clone().sqrt().log() - positions.mul_scalar(T::from64(*rate))).sum_dim(1).squeeze::<1>(1),
         }
     }
 }
